@@ -1,5 +1,6 @@
 """C04 — page tree: order, inheritance, rotation/box normalisation, page selection, cycles."""
 import io
+import re
 from fractions import Fraction as Fr
 
 from hypothesis import strategies as st
@@ -254,6 +255,28 @@ def run_case(case):
         if (chars[0].matrix[4], chars[0].matrix[5]) != (float(ex), float(ey)):
             return Outcome(classes, nt, fail="page %d glyph origin %r expected %r (rotate %d, mediabox %r, point %r); %s" % (
                 i, chars[0].matrix[4:], (float(ex), float(ey)), rot, mb, node["pt"], desc()))
+    # ---- the `rotation` option of extract_text_to_fp is added to /Rotate and reduced modulo 360 in the same way
+    rot_opt = case.get("rotation", 0)
+    if rot_opt and n:
+        from pdfminer.high_level import extract_text_to_fp
+
+        try:
+            fp = io.StringIO()
+            extract_text_to_fp(io.BytesIO(pdf), fp, output_type="xml", codec=None, rotation=rot_opt, laparams=None)
+        except Exception as e:
+            return Outcome(classes, nt, fail="extract_text_to_fp(rotation=%d) raised %s: %s; %s" % (rot_opt, type(e).__name__, e, desc()))
+        got_boxes = re.findall(r'<page id="[^"]*" bbox="([^"]*)" rotate="(-?\d+)"', fp.getvalue())
+        exp_boxes = []
+        for path, node, eff in exp:
+            mb = [float(v) for v in eff["MediaBox"][0]["v"]]
+            rot = ((eff["Rotate"][0]["v"] if "Rotate" in eff else 0) + rot_opt) % 360
+            w, h = mb[2] - mb[0], mb[3] - mb[1]
+            ww, hh = (h, w) if rot in (90, 270) else (w, h)
+            exp_boxes.append("%.3f,%.3f,%.3f,%.3f" % (0, 0, ww, hh))
+        if [g[0] for g in got_boxes] != exp_boxes:
+            return Outcome(classes, nt, fail="extract_text_to_fp(rotation=%d): page boxes %r expected %r; %s" % (
+                rot_opt, [g[0] for g in got_boxes], exp_boxes, desc()))
+        classes.append("rotation-option")
     # ---- selection
     want = selection(n, sel)
     pn = _container(sel)
@@ -381,6 +404,7 @@ def cases(draw):
     if k in (0, 2, 3):
         sel["maxpages"] = draw(st.integers(0, n + 2))
     case["sel"] = sel
+    case["rotation"] = draw(st.sampled_from([0, 0, 90, 180, 270, 270]))
     return case
 
 
